@@ -316,3 +316,23 @@ CHECKS["C04"] = {
         "default depth-counting mode only",
     ],
 }
+
+CHECKS["C06"] = {
+    "title": "crossover recombines parental material; point mutation is local",
+    "run": std_run,
+    "models": [
+        {"module": "MC_C06", "cfg": "MC_C06.cfg", "workers": 8, "timeout": 900},
+        {"module": "MC_C06", "cfg": "MC_C06_fresh.cfg", "workers": 4, "expect_violation": "RecogniserComplete is violated"},
+    ],
+    "drivers": [{"module": "harness.drv_c06", "trace": "Trace_C06"}],
+    "shards": {"quick": 2, "thorough": 12},
+    "rule": "one trace per grammar: crossover (all five representations) and mutation (linear / structured) calls on "
+            "parents reached by create / mutate / crossover chains, gene lengths 1..300; each event carries both "
+            "parents and both children (trees as terms, genes rank-encoded)",
+    "assumptions": [
+        "tree offspring is compared structurally: a donor subtree that was copied rather than shared is accepted",
+        "genes are rank-encoded per event (only equality matters)",
+        "MC_C06 validates the linear-time recogniser used on traces against the declarative definition TreeXO for "
+        "all parent pairs of four small grammars",
+    ],
+}
